@@ -18,9 +18,17 @@ def replay_into(prop, rep, fnd, cov, ck, universe=3):
                          "keyform": c["keyform"]})
             continue
         executed += c["summary"]["executed"]
+        mine = []
+        sigs = set()
         for m in c["mismatches"]:
-            if prop in ck.replay_owners(m):
-                seg = ck.script_segment(rep["script"], m["line"])
+            sig = "replay:%s:%s" % (m["op"], m["facet"])
+            if prop in ck.replay_owners(m) and sig not in sigs:
+                sigs.add(sig)
+                mine.append(m)
+        segs = ck.script_segments(rep["script"], [m["line"] for m in mine[:8]])
+        for m in mine[:8]:
+            if True:
+                seg = segs.get(m["line"], [])
                 fnd.add("replay:%s:%s" % (m["op"], m["facet"]),
                         "replay %s/%s line %d op %s facet %s: expected %s, real cache gave %s" %
                         (c["hasher"], c["keyform"], m["line"], m["op"], m["facet"],
@@ -176,6 +184,36 @@ def collect(prop, tier, fnd, cov, ck):
         cov["samples"] = first_segments(dump["crash"]["file"], 2)
         cov["evaluations"] = cov.get("trace_events", 0)
         return
+    if prop == "C18":
+        bw = stage_borrow(tier, ck)
+        cov["programs"] = bw["programs"]
+        cov["evaluations"] = bw["programs"]
+        cov["distinct_nontrivial"] = bw["rejected"]
+        cov["accepted_as_predicted"] = bw["accepted"]
+        cov["rejected_as_predicted"] = bw["rejected"]
+        cov["rejected_with_exact_predicted_error_code"] = bw["exact_code"]
+        cov["states"] = bw["tlc"]["states"]
+        cov["transitions"] = bw["tlc"]["transitions"]
+        cov["samples"] = bw["samples"]
+        cov["explanation"] = (
+            "spec/Borrow.tla models the loan discipline (every lending API x every public call, with the "
+            "receiver mode of each cross-checked against the pub fn signatures in src/lib.rs) and the auto-trait "
+            "rule (64 witness assignments for K, V, S x Send/Sync, plus generic obligations with one bound "
+            "missing).  TLC checks NoMutationWhileLoaned on the loan machine and enumerates every program "
+            "`acquire a; call b; use a` with its predicted verdict; rustc (cargo check) is the decision "
+            "procedure: every predicted-accept function must compile, every predicted-reject function must "
+            "carry a borrow-check (E0499/E0502/E0505..) or trait (E0277) error on its own lines.")
+        cov["rule"] = "non-trivial = programs predicted to be rejected (each a distinct acquire/call pair or witness assignment)"
+        if bw.get("api_gaps") or bw.get("api_wrong_mode") or bw.get("api_stale"):
+            raise ck.ToolError("the API table of spec/Borrow.tla no longer matches src/lib.rs: gaps %s, wrong mode %s, "
+                               "stale %s" % (bw.get("api_gaps"), bw.get("api_wrong_mode"), bw.get("api_stale")))
+        for dsg in bw["disagreements"]:
+            pr = dsg.get("program") or {}
+            sig = "borrow:%s:%s:%s" % (pr.get("kind", dsg.get("target")), pr.get("acq", pr.get("trait", "")),
+                                        pr.get("call", pr.get("missing", json.dumps([pr.get("k"), pr.get("v"), pr.get("s")]))))
+            fnd.add(sig, "rustc disagrees with spec/Borrow.tla: %s" % json.dumps(dsg)[:500],
+                    {"kind": "borrow", "disagreement": dsg})
+        return
     if prop in ("C08", "C09"):
         ms = stage_memsize(tier, ck)
         cov["evaluations"] = ms["records"]
@@ -298,6 +336,35 @@ def stage_memsize(tier, ck):
                                          os.path.join(ms_dir, "src", "main.rs")])[:12], go)
 
 
+def stage_borrow(tier, ck):
+    import shutil
+    import sys
+    probe = os.path.join(ck.ROOT, "borrowprobe")
+
+    def go(d):
+        w = ck.spec_workdir(d)
+        p = ck.tlc(w, "Borrow.tla", "Borrow.cfg", workers=1, timeout=600)
+        st = ck.parse_tlc_stats(p.stdout)
+        if not st["ok"]:
+            raise ck.ToolError("Borrow.tla: TLC reports a violation of NoMutationWhileLoaned:\n" + p.stdout[-2000:])
+        out = os.path.join(d, "borrow.out")
+        with open(out, "w") as fh:
+            fh.write(p.stdout)
+        gen = os.path.join(ck.ROOT, "tools", "gen_borrow.py")
+        ck.run([sys.executable, gen, "gen", out, probe, os.path.join(ck.REPO, "src")], 600)
+        q = ck.run([sys.executable, gen, "judge", probe], 3600)
+        res = json.loads(q.stdout.strip().splitlines()[-1])
+        if res.get("tool_error"):
+            raise ck.ToolError("cargo check failed without diagnostics:\n" + res["tool_error"])
+        plan = json.load(open(os.path.join(probe, "plan.json")))
+        res["samples"] = [plan["accept"][0], plan["reject_bck"][0], plan["reject_ty"][0]]
+        res["tlc"] = st
+        shutil.rmtree(w, ignore_errors=True)
+        os.remove(out)
+        return res
+    return ck.cached("borrow-" + tier, ck.source_hash() + "-" + ck.spec_hash(), go)
+
+
 def first_segments(path, n):
     out = []
     with open(path) as fh:
@@ -334,4 +401,110 @@ def crash_plan(tier, seed):
 
 
 def selftest(ck):
+    """setup-time self-test of the binding between specification and code: a short trace is
+    recorded from the real cache and must be accepted; then one logged field per facet family
+    is corrupted (and, separately, one event is removed) and the trace must be REJECTED with
+    the matching facet.  A corruption that is not noticed is a tool error."""
+    import copy
+    import shutil
+    import subprocess
+    d = os.path.join(ck.CACHE, "selftest")
+    shutil.rmtree(d, ignore_errors=True)
+    os.makedirs(d)
+    w = ck.spec_workdir(d)
+    trace = os.path.join(d, "trace.ndjson")
+    p = subprocess.run([os.path.join(ck.BIN, "drive"), "--seed", "42", "--steps", "400", "--profile", "small",
+                        "--hasher", "const", "--keyform", "owned", "--events", trace, "--segment", "200"],
+                       stdout=subprocess.PIPE, stderr=subprocess.PIPE, text=True, timeout=300)
+    if p.returncode != 0:
+        print("TOOL-ERROR: selftest driver failed:", p.stderr[-500:])
+        return 2
+    events = [json.loads(x) for x in open(trace)]
+    v = ck.validate_trace(w, trace)
+    if not v["ok"] or v["bad"]:
+        # on the unchanged tree only known findings may appear here
+        bad = [b for b in v["bad"] if any(f != "shrink_raises_with_tombstones" for _, f in b["bad"])]
+        if bad or not v["ok"]:
+            print("TOOL-ERROR: selftest trace not accepted:", json.dumps(bad)[:600], v["tail"][-600:])
+            return 2
+
+    def pick(pred):
+        for i, ev in enumerate(events):
+            if not ev.get("reset") and pred(ev):
+                return i
+        return None
+
+    def corrupt(name, idx, fn, want):
+        if idx is None:
+            return "%s: no suitable event" % name
+        evs = copy.deepcopy(events)
+        r = fn(evs, idx)
+        if r is not None:
+            evs = r
+        path = os.path.join(d, "corrupt-%s.ndjson" % name)
+        with open(path, "w") as fh:
+            for ev in evs:
+                fh.write(json.dumps(ev) + "\n")
+        vv = ck.validate_trace(w, path)
+        facets = {f for b in vv["bad"] for _, f in b["bad"]}
+        os.remove(path)
+        if not (facets & set(want)):
+            return "%s: corruption not rejected (facets %s, wanted one of %s)" % (name, sorted(facets), want)
+        return None
+
+    def swap_order(evs, i):
+        o = evs[i]["st"]["ord"]
+        o[0], o[1] = o[1], o[0]
+
+    def bump_cur(evs, i):
+        evs[i]["st"]["cur"] += 1
+        evs[i]["st"]["hook"]["cur"] += 1
+
+    def ret_tag(evs, i):
+        evs[i]["ret"]["tag"] = "None" if evs[i]["ret"]["tag"] == "Some" else "Some"
+
+    def drop_event(evs, i):
+        return evs[:i] + evs[i + 1:]
+
+    def break_link(evs, i):
+        evs[i]["st"]["hook"]["fwd"][0][2] = -2
+
+    def more_hashes(evs, i):
+        evs[i]["counts"]["hash"] += 50
+
+    def lose_drop(evs, i):
+        evs[i]["dropped"] = evs[i]["dropped"][1:]
+
+    def cap_change(evs, i):
+        evs[i]["st"]["cap"] += 1
+        evs[i]["st"]["hook"]["cap"] += 1
+
+    def fp_change(evs, i):
+        evs[i]["fp"] = "0" * 16
+
+    problems = [x for x in [
+        corrupt("order", pick(lambda e: len(e["st"]["ord"]) >= 2 and e["a"]["op"] == "get"), swap_order,
+                ["order", "C05_Step"]),
+        corrupt("current_size", pick(lambda e: e["st"]["alive"] and len(e["st"]["ord"]) >= 1), bump_cur,
+                ["current_size", "C02_Exact", "sum_recorded"]),
+        corrupt("return_value", pick(lambda e: e["a"]["op"] == "peek" and e["ret"]["tag"] in ("Some", "None")),
+                ret_tag, ["ret", "C04_Step"]),
+        corrupt("missing_event", pick(lambda e: e["a"]["op"] == "insert" and e["ret"]["tag"] == "OkNone"
+                                      and e["i"] > 3), drop_event,
+                ["keyset", "C04_Step", "fresh", "C06_Step", "C03_Step"]),
+        corrupt("broken_link", pick(lambda e: len(e["st"]["hook"]["fwd"]) >= 2), break_link, ["WellFormed"]),
+        corrupt("hash_count", pick(lambda e: e["a"]["op"] == "get"), more_hashes, ["hashes", "C20_Step"]),
+        corrupt("lost_drop", pick(lambda e: len(e["dropped"]) >= 1 and e["a"]["op"] in ("insert", "retain", "clear",
+                                                                                     "set_max_size")),
+                lose_drop, ["dropped", "C06_Step", "C15_Step"]),
+        corrupt("capacity", pick(lambda e: e["a"]["op"] == "get" and e["st"]["alive"]), cap_change,
+                ["geometry", "C13_Step", "C19_Step", "WellFormed"]),
+        corrupt("readonly_fingerprint", pick(lambda e: e["a"]["op"] == "peek_entry"), fp_change,
+                ["fingerprint", "probe_wrote"]),
+    ] if x]
+    shutil.rmtree(d, ignore_errors=True)
+    if problems:
+        print("TOOL-ERROR: binding self-test failed:", "; ".join(problems))
+        return 2
+    print("selftest ok: accepted the recorded trace, rejected 9 corrupted variants")
     return 0
